@@ -29,6 +29,9 @@ def one(e, base):
     elif e.get('generator') == 'py-shuffle':
         from py_shuffle import main as shuffle
         shuffle(d)
+    elif e.get('generator') == 'invert-ifs':
+        from invert_ifs import main as invert
+        invert(d, 'cxx')
     elif e.get('generator') == 'insert-noops':
         from insert_noops import main as noops
         noops(d)
